@@ -21,6 +21,14 @@ typedef struct vbi_decoder vbi_decoder;
 #endif
 struct caption { int carved_out; };
 
+#ifdef VERIF_CBMC
+/* goto-cc turns calls of the printf family into output statements without side effects: the header text of row 0 would be
+   8 nondeterministic bytes.  Route the one reachable call to a model (c02fmt_stubs.h). */
+#include <stdio.h>
+int c02fmt_snprintf(char *s, size_t n, const char *fmt, ...);
+#define snprintf c02fmt_snprintf
+#endif
+
 /* vbi_format_vt_page() walks the page with vtp->data.lop.raw[0][i++], i = 0..999: flat indexing of raw[26][40] through its
    first row.  This stays inside data.lop (the exact-size page object below proves that) but is an index >= 40 into a
    uint8_t[40] sub-object: standard-level UB that -fsanitize=bounds aborts on at the first byte of row 1.  It is recorded
@@ -46,6 +54,11 @@ struct caption { int carved_out; };
 #ifndef FMT_NSYM
 #define FMT_NSYM 10          /* number of symbolic columns; the others transmit SPACE */
 #endif
+#ifndef FMT_ROW
+#define FMT_ROW 1            /* page row carrying the symbolic window: 1 (display_rows 2: double height reaches row 2) or 24 (display_rows 25:
+                                the last row, where 12.2 forbids double height/size and the formatter's lower-row pass never runs) */
+#endif
+#define FMT_DISPLAY_ROWS ((FMT_ROW) == 1 ? 2 : (FMT_ROW) + 1)
 #ifndef FMT_NATIONAL
 #define FMT_NATIONAL 0       /* C12-C14 national option of the page (Table 32 region 0: 0 English ... 6 Czech/Slovak) */
 #endif
@@ -55,9 +68,21 @@ struct caption { int carved_out; };
 
 static vbi_decoder VBI;
 static vbi_page PG;
-/* exact-size cache_page of a LOP without enhancement (cache_page_size()): reading past data.lop is a bounds failure */
+/* exact-size cache_page of a LOP without enhancement (cache_page_size()): a typed replica of the head of cache_page that ends
+   after data.lop, so that reading past data.lop is a bounds failure (CBMC) / global redzone hit (ASan) */
+struct __attribute__((packed)) c02_lop_page {       /* packed: no tail padding, sizeof == cache_page_size() of a plain LOP */
+  struct node hash_node, pri_node; cache_network *network; unsigned int ref_count; cache_priority priority;
+  enum ttx_page_function function; vbi_pgno pgno; vbi_subno subno; int national; unsigned int flags;
+  unsigned int lop_packets, x26_designations, x27_designations, x28_designations;
+  uint32_t pad_before_union;
+  /* struct ttx_lop, with raw[26][40] declared flat: vbi_format_vt_page() indexes it as raw[0][0..999] */
+  uint8_t raw_flat[26 * 40]; struct ttx_page_link link[6 * 6]; vbi_bool have_flof;
+};
 #define CP_LOP_SIZE (offsetof(cache_page, data) + sizeof(((cache_page *) 0)->data.lop))
-static _Alignas(16) uint8_t CPMEM[CP_LOP_SIZE];
+typedef char c02_layout_check[(offsetof(struct c02_lop_page, raw_flat) == offsetof(cache_page, data.lop.raw) && sizeof(struct c02_lop_page) == CP_LOP_SIZE
+  && offsetof(struct c02_lop_page, function) == offsetof(cache_page, function) && offsetof(struct c02_lop_page, national) == offsetof(cache_page, national)
+  && offsetof(struct c02_lop_page, flags) == offsetof(cache_page, flags) && offsetof(struct c02_lop_page, x28_designations) == offsetof(cache_page, x28_designations)) ? 1 : -1];
+static _Alignas(8) struct c02_lop_page CPMEM;
 
 static const vbi_rgba ref_default_cmap8[8] = { 0xFF000000u, 0xFF0000FFu, 0xFF00FF00u, 0xFF00FFFFu, 0xFFFF0000u, 0xFFFF00FFu, 0xFFFFFF00u, 0xFFFFFFFFu };
 
@@ -77,9 +102,9 @@ static void setup_decoder(unsigned code0, unsigned code1)
 static cache_page *setup_page(unsigned national, unsigned flags)
 {
 #ifdef VERIF_CBMC
-  cache_page *cp = (cache_page *) CPMEM;
+  cache_page *cp = (cache_page *) &CPMEM;
 #else
-  static uint8_t *volatile opaque = CPMEM;      /* keeps UBSan's static object-size check out of the way; ASan redzones still guard CPMEM */
+  static void *volatile opaque = &CPMEM;      /* keeps UBSan's static object-size check out of the way; ASan redzones still guard CPMEM */
   cache_page *cp = (cache_page *) opaque;
 #endif
   unsigned r, c;
@@ -88,7 +113,7 @@ static cache_page *setup_page(unsigned national, unsigned flags)
   cp->national = (int) national;
   cp->flags = flags;
   cp->lop_packets = 7; cp->x26_designations = 0; cp->x27_designations = 0; cp->x28_designations = 0;
-  for (r = 0; r < 3; r++) for (c = 0; c < 40; c++) cp->data.lop.raw[r][c] = (uint8_t) ref_par8((r == 2) ? 0x58 /* X */ : 0x20);
+  for (r = 0; r < 26; r++) for (c = 0; c < 40; c++) CPMEM.raw_flat[r * 40 + c] = (uint8_t) ref_par8((r == 2) ? 0x58 /* X */ : 0x20);
   return cp;
 }
 
@@ -109,14 +134,18 @@ V_HARNESS(h_fmt_row)
     unsigned v = (c >= FMT_FIRST && c < FMT_FIRST + FMT_NSYM) ? (code[c - FMT_FIRST] & 0x7Fu) : 0x20u;
     unsigned bad = (c >= FMT_FIRST && c < FMT_FIRST + FMT_NSYM) ? (unsigned) ((errmask >> (c - FMT_FIRST)) & 1u) : 0u;
     tx[c] = (uint8_t) (ref_par8(v) ^ (bad ? 0x80u : 0u));
-    cp->data.lop.raw[1][c] = tx[c];
+    CPMEM.raw_flat[FMT_ROW * 40 + c] = tx[c];
   }
+#if FMT_ROW != 1
+  /* EN 300 706 12.2: double height / double size shall not be used in rows 23 and 24 */
+  for (c = 0; c < FMT_NSYM; c++) V_ASSUME((code[c] & 0x7Fu) != 0x0D && (code[c] & 0x7Fu) != 0x0F);
+#endif
   /* sentinel in row 2 of the output: "untouched" is observable */
   for (c = 0; c < 41; c++) { PG.text[2 * 41 + c].unicode = 0x2603; PG.text[2 * 41 + c].size = VBI_NORMAL_SIZE; }
 
-  ok = vbi_format_vt_page(&VBI, &PG, cp, VBI_WST_LEVEL_1, 2, FALSE);
+  ok = vbi_format_vt_page(&VBI, &PG, cp, VBI_WST_LEVEL_1, FMT_DISPLAY_ROWS, FALSE);
   V_ASSERT(ok, "fmt_accepts_lop");
-  V_ASSERT(PG.pgno == 0x100 && PG.subno == 0 && PG.rows == 2 && PG.columns == 41, "fmt_page_header_fields");
+  V_ASSERT(PG.pgno == 0x100 && PG.subno == 0 && PG.rows == FMT_DISPLAY_ROWS && PG.columns == 41, "fmt_page_header_fields");
 
   /* --- character set designation end to end: header national bits -> font --- */
   V_ASSERT(PG.font[0] == &vbi_font_descriptors[FMT_NATIONAL], "fmt_font_primary");
@@ -133,7 +162,7 @@ V_HARNESS(h_fmt_row)
   ref_row_l1(&R, tx, ref_t32_subset(FMT_NATIONAL), ref_t32_subset((FMT_SECOND & ~7) + FMT_NATIONAL));
 
   for (c = 0; c < 40; c++) {
-    vbi_char a = PG.text[41 + c];
+    vbi_char a = PG.text[FMT_ROW * 41 + c];
     struct ref_cell e = R.cell[c];
     /* character */
     if (!e.skip_unicode) {
@@ -149,6 +178,7 @@ V_HARNESS(h_fmt_row)
     V_ASSERT(!a.underline && !a.bold && !a.italic && !a.proportional && !a.link && a.drcs_clut_offs == 0, "fmt_no_other_attributes");
   }
 
+#if FMT_ROW == 1
   /* --- lower row of double height / double size --- */
   if (R.dh_cell) {
     V_REACH("double_height");
@@ -175,6 +205,13 @@ V_HARNESS(h_fmt_row)
     V_ASSERT(PG.double_height_lower == 0, "fmt_no_dh_flag");
     for (c = 0; c < 40; c++) V_ASSERT(PG.text[2 * 41 + c].unicode == 0x2603, "fmt_rows_beyond_display_rows_untouched");
   }
+#else
+  V_ASSERT(PG.double_height_lower == 0, "fmt_no_dh_flag");
+  V_ASSERT(!R.dh_code && !R.dh_cell, "harness_no_dh_in_last_rows");
+  /* the neighbouring row transmitted spaces only */
+  for (c = 0; c < 40; c++) { vbi_char a = PG.text[(FMT_ROW - 1) * 41 + c];
+    V_ASSERT(a.unicode == 0x0020 && a.foreground == 7 && a.background == 0 && a.size == VBI_NORMAL_SIZE && !a.flash && !a.conceal && a.opacity == page_op, "fmt_other_row_unaffected"); }
+#endif
   if (R.saw_held) V_REACH("held_mosaic");
   if (R.saw_box) V_REACH("boxed");
   if (R.saw_wide) V_REACH("double_width");
@@ -192,7 +229,7 @@ V_HARNESS(h_fmt_held_reset)
   in_bytes(code, 6);
   setup_decoder(0, 0);
   cp = setup_page(0, 0);
-  for (c = 0; c < 40; c++) { tx[c] = (uint8_t) ref_par8(c < 6 ? (code[c] & 0x7Fu) : 0x20u); cp->data.lop.raw[1][c] = tx[c]; }
+  for (c = 0; c < 40; c++) { tx[c] = (uint8_t) ref_par8(c < 6 ? (code[c] & 0x7Fu) : 0x20u); CPMEM.raw_flat[40 + c] = tx[c]; }
   /* only mosaic/alpha colour codes, hold/release, size codes and mosaic characters: keeps the question on the reset rule */
   for (c = 0; c < 6; c++) { unsigned v = code[c] & 0x7Fu;
     V_ASSUME(v >= 0x20 || v <= 0x07 || (v >= 0x10 && v <= 0x17) || v == 0x1E || v == 0x1F || v == 0x0C || v == 0x0D); }
